@@ -67,16 +67,20 @@ def run_labelled(algo, O, S, leafmap, leafsyn, costs, policy, rootsyn=None, keep
         if pres["same_labels"] and O.is_binary() and S.is_binary():
             onames = {v: ("90" if O.children[v] else f"o{v}") for v in range(O.n)}
         inp, onode, snode = A.build_input(O, S, leafmap, costs, ls, unordered=not is_ord, rootsyn=rs, onames=onames)
-        if pres["same_labels"] and sum(leafmap.values()) % 2 == 0 and O.is_binary() and S.is_binary():
-            # operation history (one input in six): the OTHER solvers that accept this input object have been run on it first
-            # - for an ordered input also the unordered ones, which read the same leaf lists as sets, and the base variant
-            # before the extended one; none of them may leave a trace in the caller's input
-            for other in (("superdtl", "base_uspfs", "base_spfs") if is_ord else ("base_uspfs", "superdtl")):
-                if other != algo and not (rs is not None and SOLVERS[other][1] != "ordered"):
-                    try:
-                        list(SOLVERS[other][0](inp, A.POLICY["ANY"]))
-                    except Exception:
-                        pass        # the other solver's own failures are its own check's business
+        # operation history (one input in three, never the "mid" presentation): the OTHER solvers that accept this input
+        # object run on it before this one - for an ordered input also the unordered ones, which read the same leaf lists as
+        # sets, and the base variant before the extended one - and once more after it; none may leave a trace in the
+        # caller's input, and what this solver returned must still cost the same afterwards
+        hsum = sum((i + 1) * leafmap[k] for i, k in enumerate(sorted(leafmap)))     # position-weighted: not tied to a shape
+        history = (not pres["alias"]) and hsum % 3 == 0 and O.is_binary() and S.is_binary()
+        others = [o_ for o_ in (("superdtl", "base_uspfs", "base_spfs", "ext_spfs") if is_ord else ("base_uspfs", "superdtl"))
+                  if o_ != algo and not (rs is not None and SOLVERS[o_][1] != "ordered")] if history else []
+        before = history and hsum % 6 == 0       # the others run first; otherwise they only run afterwards
+        for other in (others if before else []):
+            try:
+                list(SOLVERS[other][0](inp, A.POLICY["ANY"]))
+            except Exception:
+                pass        # the other solver's own failures are its own check's business
     r = Result()
     try:
         outs = list(fn(inp, A.POLICY[policy]))
@@ -104,6 +108,20 @@ def run_labelled(algo, O, S, leafmap, leafsyn, costs, policy, rootsyn=None, keep
             r.error = f"{algo}/{policy} returned a solution with ordered={flag}"
             return r
         r.sols.append((m, lab, c))
+    if session is None and others and outs:
+        for other in others:
+            try:
+                list(SOLVERS[other][0](inp, A.POLICY["ALL"]))
+            except Exception:
+                pass
+        try:
+            again = [A.impl_cost(out.cost()) for out in outs]
+        except Exception as exc:
+            r.error = f"{algo}/{policy}: cost() of a returned solution raised {type(exc).__name__}: {exc} after {others} had run on the same input"
+            return r
+        if again != [c_ for _, _, c_ in r.sols]:
+            r.error = (f"{algo}/{policy}: the solutions returned cost {[c_ for _, _, c_ in r.sols][:4]}; after {others} ran on the same "
+                       f"input object they cost {again[:4]}")
     return r
 
 
